@@ -46,3 +46,6 @@ def run(rep: Report, repo: Repo, tier: str) -> None:
     # and the directory's own check agree
     with rep.isolated():
         fsrules.rule_prechecks_filtered(rep, repo, "C13-R11")
+    # "exactly one .rst per processed file ... plus one index.rst per processed directory": the two name spaces are disjoint
+    with rep.isolated():
+        fsrules.rule_index_name_collision(rep, repo, "C13-R12")
